@@ -2,7 +2,7 @@
 From Coq Require Import List NArith Arith Bool Sorted.
 From RT Require Import Proofs.BlockProofs Proofs.TableProofs.
 From RT Require Import Model.Bytes Model.Result Model.Records Model.Block Model.Merge Model.Overlay Model.Compact
-  Model.Writer Model.StackSeq Proofs.MergeProofs Proofs.CompactProofs Proofs.ExpiryProofs Proofs.StackSeqProofs.
+  Model.Writer Model.StackSeq Proofs.MergeProofs Proofs.CompactProofs Proofs.ExpiryProofs Proofs.ExpiryCorollaries Proofs.StackSeqProofs.
 Import ListNotations.
 Local Open Scope N_scope.
 
@@ -24,6 +24,36 @@ Theorem C13_keep_rule : forall e l b, l_body l = Some b ->
   (e_min_index e = 0 \/ e_min_index e <= l_index l).
 Proof. exact keep_log_rule. Qed.
 Print Assumptions C13_keep_rule.
+
+(* every limit unset ("each limit unset" of the quantifier): nothing is removed *)
+Theorem C13_unset_identity : forall ts, tables_sorted ts -> ts <> [] ->
+  stack_logs (compact_range 0 (length ts - 1) (Some {| e_time := 0; e_max_index := 0; e_min_index := 0 |}) ts) = stack_logs ts /\
+  stack_refs (compact_range 0 (length ts - 1) (Some {| e_time := 0; e_max_index := 0; e_min_index := 0 |}) ts) = stack_refs ts.
+Proof. exact expiry_unset_identity. Qed.
+Print Assumptions C13_unset_identity.
+
+(* two expiries in a row: the second filters what the first left, refs still untouched; hence
+   (C13_idempotent, C13_commute) repeating a configuration removes nothing more and the order of
+   two configurations does not matter *)
+Theorem C13_twice : forall e1 e2 ts, tables_sorted ts -> ts <> [] ->
+  let ts1 := compact_range 0 (length ts - 1) (Some e1) ts in
+  ts1 <> [] ->
+  stack_logs (compact_range 0 (length ts1 - 1) (Some e2) ts1) =
+    filter (keep_log (Some e2)) (filter (keep_log (Some e1)) (stack_logs ts)) /\
+  stack_refs (compact_range 0 (length ts1 - 1) (Some e2) ts1) = stack_refs ts.
+Proof. exact expiry_twice. Qed.
+Print Assumptions C13_twice.
+
+Theorem C13_idempotent : forall e L,
+  filter (keep_log (Some e)) (filter (keep_log (Some e)) L) = filter (keep_log (Some e)) L.
+Proof. exact expiry_idempotent_view. Qed.
+Print Assumptions C13_idempotent.
+
+Theorem C13_commute : forall e1 e2 L,
+  filter (keep_log (Some e2)) (filter (keep_log (Some e1)) L) =
+  filter (keep_log (Some e1)) (filter (keep_log (Some e2)) L).
+Proof. exact expiry_commute_view. Qed.
+Print Assumptions C13_commute.
 
 (* byte level: CompactAll(expiry) as the Go code composes it (merge, filter, write the bytes,
    read them back; Model/StackSeq.v, tied to the real Stack on every run) *)
